@@ -95,6 +95,10 @@ struct FnCfg {
     /// R3h: `X.iter().any(c)` / `V.contains(&x)` become calls of the verified helpers vx_any / vx_contains
     helpers: bool,
     vec_receivers: Vec<String>,
+    /// per item: more receivers R such that `R.iter()` is the eager accessor `iter` of the store
+    eager_receivers: Vec<String>,
+    /// R21: `write!` / `writeln!` / `.flush()` become calls of vx_write<n> / vx_flush (ghost log of the text events)
+    text_out: bool,
     /// R16: `for P in E` where the text of E starts with one of these prefixes iterates a user-defined iterator:
     /// the loop becomes `loop { match it.next() { None => break, Some(P) => body } }` (the desugaring of `for`)
     custom_iters: Vec<String>,
@@ -165,6 +169,8 @@ struct Pipeline {
 
 enum Sink<'c> {
     ForEach(&'c ExprClosure),
+    /// `try_for_each(c)`: the closure is called until it first returns an error, which is the result
+    TryForEach(&'c ExprClosure),
     Collect,
     Any(&'c ExprClosure),
     All(&'c ExprClosure),
@@ -267,6 +273,7 @@ impl<'a> R<'a> {
                     .cfg
                     .eager_iter_receivers
                     .iter()
+                    .chain(self.fc.eager_receivers.iter())
                     .any(|p| recv.ends_with(p.as_str()));
             }
         }
@@ -365,6 +372,7 @@ impl<'a> R<'a> {
             let mut mcount = 0usize;
             let sink_name = match sink {
                 Sink::ForEach(_) => "for_each",
+                Sink::TryForEach(_) => "try_for_each",
                 Sink::Collect => "collect",
                 Sink::Any(_) => "any",
                 Sink::All(_) => "all",
@@ -478,6 +486,11 @@ impl<'a> R<'a> {
                     self.in_foreach -= 1;
                     body.push_str(&format!("let {} = {};\n{}\n", pat, cur, b));
                 }
+                Sink::TryForEach(c) => {
+                    let pat = self.closure_single_pat(c);
+                    let b = self.closure_body_expr(c);
+                    body.push_str(&format!("if {}.is_ok() {{ let {} = {}; {} = {}; }}\n", rv, pat, cur, rv, b));
+                }
                 Sink::Collect => body.push_str(&format!("{}.push({});\n", rv, cur)),
                 Sink::Any(c) => {
                     let pat = self.closure_single_pat(c);
@@ -577,6 +590,20 @@ impl<'a> R<'a> {
                 }
                 let body = self.gen_pipeline(&p, &Sink::ForEach(&cl), "");
                 Some(format!("{{\n{}}}", body))
+            }
+            ("try_for_each", 1) => {
+                let p = self.parse_pipeline(&mc.receiver)?;
+                let cl = closure_of(&mc.args[0])?;
+                self.rule("R3:consumer-desugaring");
+                let lid = self.fresh(); self.pending_loop = Some(lid); let rv = format!("__r{}", lid);
+                let body = self.gen_pipeline(&p, &Sink::TryForEach(&cl), &rv);
+                Some(format!("{{ let mut {rv}: core::result::Result<(), _> = Ok(());\n{body}{rv} }}", rv = rv, body = body))
+            }
+            ("flush", 0) if self.fc.text_out => {
+                // R21: text output goes through named functions that keep a ghost log of what was written
+                self.rule("R21:text-output-events");
+                let r = self.render_expr(&mc.receiver);
+                Some(format!("vx_flush({})", r))
             }
             ("collect", 0) => {
                 // R2c: `L.chain(R).collect()` where L has its own stages: the elements of L, then those of R
@@ -799,6 +826,38 @@ impl<'a> R<'a> {
                     }
                     _ => Some("opaque_string()".to_string()),
                 }
+            }
+            "write" | "writeln" if self.fc.text_out => {
+                // R21: `write!(W, "fmt", a, b)` => `vx_write2(W, "fmt", a, b)`; `writeln!` appends the newline to the literal
+                let parser = punctuated::Punctuated::<Expr, Token![,]>::parse_terminated;
+                let args = match mac.parse_body_with(parser) {
+                    Ok(a) => a,
+                    Err(_) => die("write! with non-expression arguments"),
+                };
+                if args.is_empty() { die("write! without a destination"); }
+                let dest = self.render_expr(&args[0]);
+                let mut fmt = if args.len() >= 2 {
+                    match &args[1] {
+                        Expr::Lit(ExprLit { lit: Lit::Str(ls), .. }) => {
+                            let t = self.text(ls.span()).to_string();
+                            if !t.starts_with('"') { die("write! with a raw / non-plain format literal"); }
+                            t
+                        }
+                        _ => die("write! whose format is not a string literal"),
+                    }
+                } else {
+                    "\"\"".to_string()
+                };
+                if name == "writeln" {
+                    fmt.truncate(fmt.len() - 1);
+                    fmt.push_str("\\n\"");
+                }
+                let mut parts = vec![dest, fmt];
+                for a in args.iter().skip(2) {
+                    parts.push(self.render_expr(a));
+                }
+                self.rule("R21:text-output-events");
+                Some(format!("vx_write{}({})", args.len().saturating_sub(2), parts.join(", ")))
             }
             "panic" | "unreachable" | "unimplemented" => {
                 if self.fc.partial {
@@ -1978,6 +2037,8 @@ fn main() {
             contains_as_loop: it["contains_as_loop"].as_bool().unwrap_or(false),
             helpers: it["helpers"].as_bool().unwrap_or(false),
             vec_receivers: it["vec_receivers"].as_array().map(|a| a.iter().map(|v| v.as_str().unwrap().to_string()).collect()).unwrap_or_default(),
+            text_out: it["text_out"].as_bool().unwrap_or(false),
+            eager_receivers: it["eager_receivers"].as_array().map(|a| a.iter().map(|v| v.as_str().unwrap().to_string()).collect()).unwrap_or_default(),
             custom_iters: it["custom_iters"].as_array().map(|a| a.iter().map(|v| v.as_str().unwrap().to_string()).collect()).unwrap_or_default(),
             box_receivers: it["box_receivers"].as_array().map(|a| a.iter().map(|v| v.as_str().unwrap().to_string()).collect()).unwrap_or_default(),
             opaque_calls: it["opaque_calls"].as_array().map(|a| a.iter().map(|v| v.as_str().unwrap().to_string()).collect()).unwrap_or_default(),
